@@ -166,6 +166,7 @@ Proof.
   - inversion Hr as [Ht]. rewrite pad_length. lia.
   - destruct (kind f) as [| | dd sci upper sep | [|fmt r]]; destruct v as [| | z | x | s | d];
       try discriminate Hr;
+      try (destruct (sci && sci_raises x dd); [discriminate Hr|]);
       inversion Hr as [Ht]; first [apply ljust_length_ge | apply rjust_length_ge].
 Qed.
 
@@ -232,11 +233,20 @@ Proof.
 Qed.
 
 Theorem render_float : forall f dd sci upper sep x, kind f = KFloat dd sci upper sep -> missing (VFloat x) = false ->
+  sci && sci_raises x dd = false ->
   let body := float_text true (size f) dd sci upper sep x in
   render f (VFloat x) = Some (pad (size f - length body) ++ body).
 Proof.
-  intros f dd sci upper sep x Hk Hm body.
-  unfold render, render_gen. rewrite Hm, Hk. reflexivity.
+  intros f dd sci upper sep x Hk Hm Hr body.
+  unfold render, render_gen. rewrite Hm, Hk, Hr. reflexivity.
+Qed.
+
+(* the E branch raises OverflowError exactly when round() does (or the value is infinite) *)
+Theorem render_float_raises : forall f dd upper sep x, kind f = KFloat dd true upper sep -> missing (VFloat x) = false ->
+  sci_raises x dd = true -> render f (VFloat x) = None.
+Proof.
+  intros f dd upper sep x Hk Hm Hr.
+  unfold render, render_gen. rewrite Hm, Hk, Hr. reflexivity.
 Qed.
 
 (* ===================================================================== *)
